@@ -63,14 +63,14 @@ type c02Case struct {
 	Cache   int    `json:"cache"` // 0 = caching disabled
 	First   string `json:"first_path"`
 	Strict  bool   `json:"strict_last_slash,omitempty"`
-	Twin    string `json:"twin,omitempty"`                 // "", "before", "after": a same-shape route with other variable names under POST
-	Head    bool   `json:"head_requests,omitempty"`        // the history is requested with HEAD (served by the GET route)
-	Redisp  bool   `json:"redispatch,omitempty"`           // the route's handler re-dispatches (HandleContext) to a static and to another dynamic route
-	Enc     bool   `json:"use_encoded_path,omitempty"`     // the router matches the ESCAPED request path (UseEncodedPath): the handlers see the escaped substrings
+	Twin    string `json:"twin,omitempty"`                           // "", "before", "after": a same-shape route with other variable names under POST
+	Head    bool   `json:"head_requests,omitempty"`                  // the history is requested with HEAD (served by the GET route)
+	Redisp  bool   `json:"redispatch,omitempty"`                     // the route's handler re-dispatches (HandleContext) to a static and to another dynamic route
+	Enc     bool   `json:"use_encoded_path,omitempty"`               // the router matches the ESCAPED request path (UseEncodedPath): the handlers see the escaped substrings
 	NA      bool   `json:"method_not_allowed_probe_first,omitempty"` // HandleMethodNotAllowed is on and every request is preceded by a DELETE (405) request for the same path
-	GVar    bool   `json:"global_var_defined_late,omitempty"`      // instead of a pattern of the pool: a global variable is defined AFTER its name was used as a plain variable
-	Mut     bool   `json:"handler_edits_params,omitempty"` // the route's handler edits the Params map it was given, after reading it
-	Dump    bool   `json:"dump_routes,omitempty"`          // the router's read-only inspection API (String, Routes, IterateRoutes, NamedRoutes) is called between registration and the requests and again between them
+	GVar    bool   `json:"global_var_defined_late,omitempty"`        // instead of a pattern of the pool: a global variable is defined AFTER its name was used as a plain variable
+	Mut     bool   `json:"handler_edits_params,omitempty"`           // the route's handler edits the Params map it was given, after reading it
+	Dump    bool   `json:"dump_routes,omitempty"`                    // the router's read-only inspection API (String, Routes, IterateRoutes, NamedRoutes) is called between registration and the requests and again between them
 }
 
 var c02VarName = regexp.MustCompile(`\{([a-z]+)`)
@@ -183,9 +183,18 @@ func c02Gen(tier string, emit func(c02Case)) {
 			stride = len(paths) / 28
 		}
 		for _, cc := range caches {
-			for i := 0; i < len(paths); i += stride {
+			st0 := stride
+			if tier == "thorough" && cc == 0 {
+				// without a cache the first request leaves nothing behind that the lookup of the second could meet
+				st0 = 4
+			}
+			for i := 0; i < len(paths); i += st0 {
 				emit(c02Case{Pattern: pat, Cache: cc, First: paths[i]})
 			}
+		}
+		if tier == "thorough" {
+			// (the variants below take every 8th path as first request; all paths are still the second request)
+			stride = 2
 		}
 		// HEAD requests are served by the GET route and must see the same parameters (also from the cache)
 		for _, cc := range []int{0, 2} {
@@ -220,7 +229,7 @@ func c02Gen(tier string, emit func(c02Case)) {
 		// StrictLastSlash: '/x' and '/x/' are different request paths (and different cache keys)
 		s2 := stride * 3
 		if tier == "thorough" {
-			s2 = 1
+			s2 = 2
 		}
 		for _, cc := range []int{0, 2} {
 			for i := 0; i < len(paths); i += s2 {
@@ -231,7 +240,7 @@ func c02Gen(tier string, emit func(c02Case)) {
 		if c02Twin(pat) != pat {
 			s3 := stride * 6
 			if tier == "thorough" {
-				s3 = 4
+				s3 = 8
 			}
 			for _, tw := range []string{"before", "after"} {
 				for _, cc := range []int{0, 2} {
@@ -517,9 +526,15 @@ var c02Spec = fw.Spec[c02Case]{
 		for _, p := range c02Pool {
 			n += len(c02PathCache[p])
 		}
-		return map[string]any{"patterns": len(c02Pool), "values": len(c02Values), "candidate_paths_total": n, "cache": "off,1,2", "first_path_stride": map[string]string{"quick": "<=~28 first paths per pattern (every path is still used as q)", "thorough": "all"}[tier]}
+		return map[string]any{"patterns": len(c02Pool), "values": len(c02Values), "candidate_paths_total": n, "cache": "off,1,2", "first_path_stride": map[string]string{"quick": "<=~28 first paths per pattern (every path is still used as q)", "thorough": "all on caching routers (every 4th without a cache); every 8th for the variant dimensions"}[tier]}
 	},
 	Gen:   c02Gen,
 	Run:   c02Run,
 	Batch: 4,
+	BudgetSec: func(tier string) int {
+		if tier == "thorough" {
+			return 3000
+		}
+		return 120
+	},
 }
